@@ -168,14 +168,17 @@ PROPS = {
         "no_panic": ["cap "],
     },
     "C11": {
-        "modules": ["Capnp.Props.C11"],
+        "modules": ["Capnp.Props.C11", "Capnp.Props.C11J"],
         "gen": False,
         "rule": "sequential scripts of 2-11 operations on a real Promise with an instrumented PipelineCaller and result capabilities "
                 "(Client() for two paths incl. repeats, pipelined calls directly and through the pipelined client, Fulfill, Reject, "
                 "ReleaseClients), every operation under a 2 s deadline, deliveries to caller / result compared with the model after each op (M); "
                 "Join of a promise that handed out 0-3 pipelined clients onto an answer with / without clients, then fulfilment of the parent (S); "
-                "stress: 2-8 goroutines x 5-100 calls / client requests racing one Fulfill, oracle: delivered = issued, nothing hangs (S).",
-        "trusted": COMMON_TRUSTED + ["the critical sections of answer.go are the model's atomic actions (sampled, not proved)", "Join chains are covered by the oracle stream only"],
+                "stress: 2-8 goroutines x 5-100 calls / client requests racing one Fulfill, oracle: delivered = issued, nothing hangs (S); sequences of "
+                "4-19 NewPromise / Client / Join / Fulfill / ReleaseClients operations over up to five promises (chains of any shape, joins onto resolved "
+                "promises, repeated releases): the client each Client() returns and the validity of every client handed out so far compared with "
+                "Model.JoinRefs after every operation (M); Join while a call is in flight, release orders over a joined chain (S).",
+        "trusted": COMMON_TRUSTED + ["the critical sections of answer.go are the model's atomic actions (sampled, not proved)", "joined chains are modelled sequentially (Model.JoinRefs, `promise joinseq`); concurrency inside Join (in-flight calls, pending parents) is covered by directed oracles only"],
         "assumptions": [],
         "shards": {"quick": 2, "thorough": 16},
         "no_panic": ["promise "],
